@@ -12,15 +12,27 @@ import (
 // path panics, writes to memory that existed before the call, creates
 // harness inputs, or when results cannot be merged.
 func (x *Exec) callMerged(fn *ssa.Function, args []Value, env []Value, site ssa.CallInstruction) (res Value, ok bool) {
+	if res, ok = x.callMergedMode(fn, args, env, site, true); ok {
+		return
+	}
+	return x.callMergedMode(fn, args, env, site, false)
+}
+
+func (x *Exec) callMergedMode(fn *ssa.Function, args []Value, env []Value, site ssa.CallInstruction, lazy bool) (res Value, ok bool) {
 	savedSc := x.sc
+	savedModelOK := x.modelOK
 	pcLen := len(x.pc)
 	stackLen := len(x.stack)
 	nin := len(x.inputs)
 	nfind := len(x.findings)
 	x.mergeMark = append(x.mergeMark, x.ncell)
+	savedSpec := x.spec
+	x.spec = 0
 	defer func() {
+		x.spec = savedSpec
 		x.mergeMark = x.mergeMark[:len(x.mergeMark)-1]
 		x.sc = savedSc
+		x.modelOK = savedModelOK
 		x.pc = x.pc[:pcLen]
 		x.stack = x.stack[:stackLen]
 	}()
@@ -33,7 +45,8 @@ func (x *Exec) callMerged(fn *ssa.Function, args []Value, env []Value, site ssa.
 	for len(work) > 0 {
 		p := work[len(work)-1]
 		work = work[:len(work)-1]
-		x.sc = &scope{prefix: p}
+		x.sc = &scope{prefix: p, lazy: lazy}
+		x.modelOK = false
 		x.pc = x.pc[:pcLen]
 		x.stack = x.stack[:stackLen]
 		var val Value
